@@ -437,6 +437,8 @@ func (ps *parser) primary() Expr {
 	panic(fmt.Sprintf("unexpected token %q", t.text))
 }
 
+var renameCounter int
+
 // substitute replaces free identifiers by expressions (macro expansion of preds).
 func substExpr(e Expr, m map[string]Expr) Expr {
 	switch x := e.(type) {
@@ -473,13 +475,19 @@ func substExpr(e Expr, m map[string]Expr) Expr {
 	case EIn:
 		return EIn{substExpr(x.K, m), substExpr(x.M, m)}
 	case EQuant:
+		// binders are renamed apart so that substituted arguments are never captured
 		m2 := map[string]Expr{}
 		for k, v := range m {
 			m2[k] = v
 		}
-		for _, b := range x.Vars {
-			delete(m2, b.Name)
+		vars := make([]Binder, len(x.Vars))
+		for i, b := range x.Vars {
+			renameCounter++
+			nn := fmt.Sprintf("%s_%d", strings.SplitN(b.Name, "_", 2)[0], renameCounter)
+			vars[i] = Binder{nn, b.Type}
+			m2[b.Name] = EId{nn}
 		}
+		x.Vars = vars
 		var trigs [][]Expr
 		for _, tr := range x.Trigs {
 			var t2 []Expr
